@@ -42,7 +42,80 @@ def gen(rng, tier):
             # its task group): serve() still has to *return*
             for ls in ("lingers", "yields"):
                 yield {"family": "lifespan-%s.idle" % ls, "backend": be, "kind": "idle_keepalive", "count": 1, "trigger": "callable", "rep": rep, "ls": ls}
+            # connections arriving while the trigger fires: each request is either answered in full or was never handed to an application
+            for k in range(4 if tier == "quick" else 12):
+                yield {"family": "burst-across-trigger", "backend": be, "kind": "burst_across_trigger", "count": 16, "trigger": "callable", "rep": rep * 10 + k}
             yield {"family": "lifespan-lingers.inflight", "backend": be, "kind": "inflight_short", "count": 1, "trigger": "callable", "rep": rep, "ls": "lingers"}
+
+
+def _burst_across_trigger(case, h, tally):
+    """Connections are opened, each with its request written at once, while the shutdown trigger fires in their midst.  Whatever the
+    interleaving, a request is either "in progress" (handed to an application: then its response - the application answers at once, well
+    inside the grace period - must arrive in full) or "new" (refused: then no application may have been started for it).  Judged per request
+    from the application-side record, never from timing."""
+    import threading
+
+    findings, be, n = [], case["backend"], case["count"]
+    results = {}
+    try:
+        h.start()
+        tr = h.trace
+        h.wait_event(lambda e: e[2] == "app" and e[3] == "send.", 3.0)
+        h.wait_ready()
+
+        def one(i):
+            s = h.connect(timeout=0.5)
+            if s is None:
+                results[i] = ("refused", b"")
+                return
+            try:
+                s.sendall(b"GET /b%d HTTP/1.1\r\nHost: h\r\nConnection: close\r\n\r\n" % i)
+                d, eof = recv_all(s, timeout=2.5)
+                results[i] = ("eof" if eof else "open", d)
+            except OSError as e:
+                results[i] = ("error:" + type(e).__name__, b"")
+            finally:
+                s.close()
+
+        ths = []
+        fire_at = n // 2 + (case["rep"] % 3) - 1
+        for i in range(n):
+            if i == fire_at:
+                h.trigger_shutdown()
+            t = threading.Thread(target=one, args=(i,), daemon=True)
+            t.start()
+            ths.append(t)
+            if case["rep"] % 2:
+                time.sleep(0.002)
+        for t in ths:
+            t.join(6.0)
+        h.wait_done(HORIZON)
+    finally:
+        h.close()
+    ev = h.trace.events
+    for e in ev:
+        tally.events[e[2] + "." + e[3]] += 1
+    started = {e[4]["scope"].get("path") for e in ev if e[2] == "app" and e[3] == "start" and e[4]["scope"].get("type") == "http"}
+    if not results:
+        tally.inconclusive["no-connection-established"] += 1
+        return findings, [None]
+    tally.clause("started-implies-delivered")
+    kinds = {"served": 0, "refused-cleanly": 0}
+    for i, (how, d) in sorted(results.items()):
+        path = "/b%d" % i
+        complete = d.startswith(b"HTTP/1.1 200") and d.endswith(b"ok")
+        if path in started and not complete:
+            findings.append({"clause": "inflight-delivered", "sig": "C15.started-then-dropped/%s" % be, "backend": be,
+                             "detail": "request %s was handed to an application around the trigger (so it was in progress) but its response did not arrive: "
+                                       "connection %s, %d bytes %r" % (path, how, len(d), d[:40])})
+            break
+        if complete:
+            kinds["served"] += 1
+        elif path not in started:
+            kinds["refused-cleanly"] += 1
+    for k, v in kinds.items():
+        tally.events["burst." + k] += v
+    return findings, [None]
 
 
 def run_one(case, tally):
@@ -70,6 +143,8 @@ def run_one(case, tally):
     h = ServeHarness(be, cfg, apps)
     socks = []
     seen = {}
+    if kind == "burst_across_trigger":
+        return _burst_across_trigger(case, h, tally)
     try:
         h.start()
         tr = h.trace
